@@ -3,7 +3,7 @@ CONSTANTS
   NS = 2
   NR = 2
   Graphs = {1, 2}
-  MaxBad = 3
+  MaxBad = 4
   MaxLen = 100000
   MutArcFirst = FALSE
   MutLeakPartial = FALSE
